@@ -1,22 +1,22 @@
-\* documented counterexample: core/conf describing a map[string]Struct by its element field table (seeded defect class)
+\* Layer I => Layer P on the decimal families: the range is checked on the number as supplied (float32 and float64 fields, JSON-number path, string path, string option)
 SPECIFICATION ISpec
 CONSTANTS
-  Sources = {"conf"}
-  Wraps = {"map"}
-  Kinds = {"int"}
+  Sources = {"json", "yaml", "form", "header"}
+  Wraps = {"flat"}
+  Kinds = {"float32", "float64", "int"}
   AOpts = {"none", "plain"}
   Defs = {"none", "in"}
-  Rngs = {"none"}
-  Opts = {"none"}
-  FSs = {FALSE}
+  Rngs = {"none", "d1", "d7", "d1c", "d7c", "d37"}
+  Opts = {"none", "dec"}
+  FSs = {FALSE, TRUE}
   Ptrs = {FALSE}
   BIds = {"nob"}
   XKs = {""}
   Rich = FALSE
   Edges = FALSE
-  KSps = {"lower", "cap"}
-  MKs = {"k", "a", "A", "M"}
-  Unit = 2
+  KSps = {"lower"}
+  MKs = {"k"}
+  Unit = 20
   Multi = FALSE
   XVs = {"one"}
   Depth = 1
@@ -24,7 +24,7 @@ CONSTANTS
   DropOnRebuild = FALSE
   CanonBang = FALSE
   WideParse = FALSE
-  MapAsStruct = TRUE
+  MapAsStruct = FALSE
   RoundFirst = FALSE
   IndexFirst = FALSE
 INVARIANTS InvNoPanic InvCompleteness InvSoundness InvValues InvHistoryIndependent InvClassesDisjoint
